@@ -113,6 +113,22 @@ CHECKS = {
             "Rosenbrock tables are taken from the method names (the source only states err_order). Open known finding: "
             "dirk34 tableau (matched by the exact residual fingerprint).",
             "DESIGN.md section 2, C12"),
+    "C13": ("exploration",
+            "Hypothesis-generated (form, one-token mutation neighbour) pairs: equal cache key must imply equal assembler "
+            "interface and equal reference integrand; compile-order differential tests; regeneration of the shipped "
+            "sources under several PYTHONHASHSEED values",
+            "For generated forms and their one-token mutants (operator, function name, constant, derivative index, "
+            "physical/parametric flag, measure, boundary flag, component mode, space index, updatable flag) the "
+            "in-process cache key vf.hash() is compared: equal keys are only accepted if both forms have the same "
+            "assembler interface and the same reference matrix (own interpreter). In crash-isolated workers A,B,A,B "
+            "(and B,A,B,A) are compiled in one process: every returned class must assemble ITS OWN form (C01 oracle), "
+            "repeated requests return the identical class, and a module's name equals the digest of its source. "
+            "assemblers.pyx/genericasm.pxi are regenerated with the functions of scripts/generate-assemblers.py under "
+            "PYTHONHASHSEED 0..3 and compared block-wise up to statement order; the 14 pre-seeded (form, class) pairs are "
+            "checked for identity and against the reference assembly of their forms. Sampling, not proof.",
+            "Trusted: vp/ref/forms.py. Generated TEXT equality between two builds of the same form is not demanded "
+            "(statement order and storage offsets depend on set iteration order; the property allows this).",
+            "DESIGN.md section 2, C13"),
     "C14": ("exploration",
             "exhaustive itertools enumeration of join orders (with repetitions, omissions, flips, re-parametrisations) for "
             "small patch complexes + Hypothesis-generated complexes / conforming decompositions; oracle = union-find over "
